@@ -113,8 +113,8 @@ def impl_merge(name, versions):
         out = merge_channels(name, [v.encode("utf-8") for v in versions])
     except MergeNotSupportedError:
         return [1, 11], None
-    except TypeError:
-        return [1, 1], None
+    except Exception as e:  # noqa: any other exception is reported, not propagated
+        return [1, common.TAGS.get(type(e).__name__, 99)], None
     text = out.decode("utf-8")
     return [0, s2l(text)], text
 
@@ -703,8 +703,8 @@ def impl_entries(name, texts, keep):
         return [0, [[ckind(e), s2l(e.val if ckind(e) == K_COMMENT else
                                   ("" if ckind(e) == K_WHITE else e.key)), s2l(e.all)]
                     for e in es]]
-    except TypeError:
-        return [1, 1]
+    except Exception as e:  # noqa
+        return [1, common.TAGS.get(type(e).__name__, 99)]
 
 
 # ------------------------------------------------------------- known findings ---
@@ -719,8 +719,10 @@ WITNESSES = [
 ]
 
 
-def run_witnesses(chk):
+def run_witnesses(chk, only=None):
     for sig, fmt, texts in WITNESSES:
+        if only is not None and texts != only:
+            continue
         res, text = impl_merge(FNAME[fmt], texts)
         if sig == "ini-section-name-equals-key":
             if text != texts[0]:
@@ -756,7 +758,7 @@ def replay(chk, path):
             else:
                 oracle_merge(sub, {"fmt": c["fmt"], "items": c["items"], "texts": c["versions"]}, text)
         elif "versions" in c:
-            run_witnesses(sub)
+            run_witnesses(sub, only=c["versions"])
         elif "name" in c:
             res, _ = impl_merge(c["name"], ["a = b\n"])
             if res != [1, 11]:
